@@ -63,6 +63,7 @@ S7 == Scn(9007, Sig("i32", <<"i32">>, 255), <<Callee("i32", <<"i32">>, 255, "imm
 MCScenarios == {S1, S2, S3, S4, S5, S6, S7}
 MCSmall == {S1, S3, S6}
 MCOne == {S7}
+MCCov == {S7, S3}
 R16(a, b) == <<a, b, 2, 3, 4, 5, 6, 7, 8, 9, 10, 11, 12, 13, 14, 15>>
 MCRetVals == {R16(7, 0), R16(65535, 1)}
 MCRetOne == {R16(7, 0)}
